@@ -14,4 +14,9 @@ if ! cargo build --release >/tmp/aquaverif-build-$$.log 2>&1; then
   exit 2
 fi
 rm -f /tmp/aquaverif-build-$$.log
-exec ./target/release/aquaverif check "$ID" "$TIER"
+./target/release/aquaverif check "$ID" "$TIER"; code=$?
+if [ "$TIER" = "thorough" ] && [ $code -eq 0 ]; then
+  # coverage-guided campaigns for the byte/text level properties
+  /verif/tools/fuzz_tier.sh "$ID"; code=$?
+fi
+exit $code
